@@ -26,7 +26,7 @@ type ImportLine struct {
 }
 
 var importPkgs = []string{"java.util", "java.io", "org.ext.model", "org.ext.svc", "com.lib", "com.lib.sub"}
-var importNames = []string{"Widget", "Gadget", "Sprocket", "Lever", "Valve", "Gear", "Bolt", "Rivet", "Flange", "Piston", "Crank", "Shaft", "Pulley", "Spring", "Washer", "Gasket"}
+var importNames = []string{"Widget", "Gadget", "Sprocket", "Lever", "Valve", "Gear", "Bolt", "Rivet", "Flange", "Piston", "Crank", "Shaft", "Pulley", "Spring", "Washer", "Gasket", "Écran", "Ωmega", "Ünit", "Ñandu"}
 var roles = []string{"field", "param", "local", "generic", "annotation", "new", "static-receiver", "catch", "throws", "extends", "implements", "return",
 	"static-field", "enum-constant", "method-ref", "nested-type", "static-chain", "cast", "instanceof", "array", "class-literal"}
 
